@@ -310,6 +310,14 @@ func (g *Gen) next() *Op {
 	if len(s.ActID) > 0 && g.chance(0.3) {
 		return g.respond()
 	}
+	// a module that owns a context keeps driving it (keeper API ops)
+	hasMod := false
+	for _, rc := range s.Ctxs {
+		hasMod = hasMod || rc.ModuleName != ""
+	}
+	if hasMod && g.chance(0.07) {
+		return g.ctxOp(true)
+	}
 	x := rng.Intn(100)
 	if x >= 64 && x < 82 && len(s.ActID) == 0 && g.chance(0.8) {
 		// nothing is pending: make progress towards a batch instead of a hopeless response
@@ -420,7 +428,7 @@ func (g *Gen) next() *Op {
 	case x < 82:
 		return g.respond()
 	case x < 92:
-		return g.ctxOp()
+		return g.ctxOp(false)
 	case x < 97:
 		o := &Op{Kind: "withdraw", Owner: pick(rng, ownerAtoms)}
 		if g.chance(0.5) {
@@ -728,7 +736,7 @@ func beU64(b []byte) uint64 {
 	return x
 }
 
-func (g *Gen) ctxOp() *Op {
+func (g *Gen) ctxOp(forceModule bool) *Op {
 	rng := g.rng
 	r := g.r
 	s := r.snap
@@ -738,7 +746,7 @@ func (g *Gen) ctxOp() *Op {
 	var rc types.RequestContext
 	have := false
 	// contexts owned by a module are driven by that module through the keeper API (modupd, modpause,
-	// modstart, modkill): about a quarter of the context ops while such contexts exist. The keeper API is
+	// modstart, modkill): a good part of the context ops while such contexts exist (about a quarter of all context ops). The keeper API is
 	// never aimed at a context WITHOUT a module (no module would; wf_op excludes it).
 	var modIDs []string
 	for _, id := range ids {
@@ -746,7 +754,7 @@ func (g *Gen) ctxOp() *Op {
 			modIDs = append(modIDs, id)
 		}
 	}
-	viaModule := len(modIDs) > 0 && g.chance(0.3)
+	viaModule := len(modIDs) > 0 && (forceModule || g.chance(0.5))
 	switch {
 	case viaModule && g.chance(0.96):
 		id := modIDs[rng.Intn(len(modIDs))]
